@@ -1552,6 +1552,10 @@ func (app *App) SetDefaultReplicationSettingsForNode(node *mysql.Node) error {
 
 func (app *App) getCurrentMaster(clusterState map[string]*nodestate.NodeState) (string, error) {
 	master, err := app.GetMasterHostFromDcs()
+	if err != nil && !errors.Is(err, dcs.ErrMalformed) {
+		// the record may well be there: do not overwrite it because one read failed
+		return "", err
+	}
 	if master != "" && err == nil {
 		return master, err
 	}
